@@ -2,7 +2,7 @@
 PID = "C05"
 CARRIERS = ["tls-socket", "starttls-socket", "wss", "starttls-ws", "starttls-kcp", "plain-socket", "plain-ws", "plain-kcp"]
 SCERTS = ["good", "dnsonly", "wronghost", "untrusted", "expired", "none"]
-CCERTS = ["none", "client-good", "client-foreign"]
+CCERTS = ["none", "client-good", "client-foreign", "client-lookalike"]    # lookalike: foreign CA carrying the configured CA's subject name
 RULE = ("the full matrix server certificate {trusted+matching (with and without an IP SAN), wrong host, untrusted, expired, none} x client "
         "insecure flag x client certificate {none, CA-signed, foreign CA} x require-client-certificate x must-secure x carrier {TLS socket, "
         "wss, StartTLS over socket / websocket / KCP, plain}: every cell is run end to end against real servers on loopback with "
